@@ -50,10 +50,11 @@ Definition on_view (s : st) (k : nat) (f : view -> bool) : bool :=
 (* values given to a view are of the view's type; the mapping layer sits on node views *)
 Definition op_hyps_b (s : st) (o : op) : bool :=
   match o with
-  | VSet k _ xs | VExtend k xs => on_view s k (fun v => forallb (matches (v_tags v)) xs)
+  | VSet k _ xs | VExtend k xs | VIAdd k xs => on_view s k (fun v => forallb (matches (v_tags v)) xs)
   | VInsert k _ x | VAppend k x => on_view s k (fun v => matches (v_tags v) x)
   | MSet k _ _ x => on_view s k (fun v => matches (v_tags v) x && is_node v)
-  | MGet k _ _ | MContains k _ | MDel k _ | MPop k _ _ _ | MKeys k | MValues k _ | MItems k _ | MPopItem k _ =>
+  | MGet k _ _ | MContains k _ | MDel k _ | MPop k _ _ _ | MKeys k | MValues k _ | MItems k _ | MPopItem k _
+  | MDict k _ _ _ =>
       on_view s k is_node
   | _ => true
   end.
